@@ -443,13 +443,16 @@ func r204(c *an.Ctx) {
 				if !ok || bo.Op != wantOp || !isSrcField(bo.X, fld, "Amount") {
 					continue
 				}
-				for _, s := range an.Sources(bo.Y) {
+				for _, s := range an.SourcesOpaque(bo.Y) {
 					ex, isEx := s.(*ssa.Extract)
 					if !isEx || ex.Index != 0 {
 						continue
 					}
 					call, isCall := ex.Tuple.(*ssa.Call)
-					if isCall && strings.HasSuffix(an.CalleeName(call), "unitpb.Convert32") && len(call.Call.Args) == 3 && isSrcField(call.Call.Args[2], fld, "Unit") {
+					if !isCall {
+						continue
+					}
+					if unit := conversionTarget(call); unit != nil && isSrcField(unit, fld, "Unit") {
 						okArith = true
 					}
 				}
@@ -509,7 +512,13 @@ func r204(c *an.Ctx) {
 	}
 	// conversion errors are returned
 	n, okErr := 0, true
-	for _, call := range an.CallsIn(fn, func(s string) bool { return strings.HasSuffix(s, "unitpb.Convert32") }) {
+	var convs []ssa.CallInstruction
+	an.Instrs(fn, func(in ssa.Instruction) {
+		if cl, ok := in.(*ssa.Call); ok && conversionTarget(cl) != nil {
+			convs = append(convs, cl)
+		}
+	})
+	for _, call := range convs {
 		n++
 		found := false
 		for _, r := range an.Returns(fn) {
@@ -564,10 +573,80 @@ func r205and7(c *an.Ctx) {
 		}
 		return false
 	}
+	// present(v): the boolean v is `index < len(list) && list[index].Name == name` however it is assembled (a
+	// short-circuit expression, the second result of a search helper): every way it becomes true passes the length test
+	// and is the name comparison, every other way is the constant false under the failed length test
+	present := func(v ssa.Value) bool {
+		leaves := an.PhiLeaves(v)
+		if len(leaves) < 2 {
+			return false
+		}
+		sawCmp := false
+		for _, lf := range leaves {
+			lenHolds, lenFails := false, false
+			for _, e := range lf.Conds {
+				if op, ok := lenCmp(e.If.Cond); ok {
+					switch {
+					case op == token.LSS && e.Branch, op == token.GEQ && !e.Branch:
+						lenHolds = true
+					case op == token.LSS && !e.Branch, op == token.GEQ && e.Branch:
+						lenFails = true
+					}
+				}
+			}
+			if b, isC := an.ConstBool(lf.Val); isC {
+				if b || !lenFails {
+					return false
+				}
+				continue
+			}
+			if op, ok := nameCmp(lf.Val); !ok || op != token.EQL || !lenHolds {
+				return false
+			}
+			sawCmp = true
+		}
+		return sawCmp
+	}
+	// presentEdge: what the edge says about such a boolean (known=false when the edge does not test one)
+	presentEdge := func(e an.CondEdge) (isPresent, known bool) {
+		cond, neg := e.If.Cond, false
+		for {
+			u, isNot := cond.(*ssa.UnOp)
+			if !isNot || u.Op != token.NOT {
+				break
+			}
+			cond, neg = u.X, !neg
+		}
+		if _, isBin := cond.(*ssa.BinOp); isBin || !present(cond) {
+			return false, false
+		}
+		return e.Branch != neg, true
+	}
+	// removal sites: copy(list[i:], list[i+1:]) or append(list[:i], list[i+1:]...)
+	removalSites := func(fn *ssa.Function) []ssa.CallInstruction {
+		out := an.CallsTo(fn, "builtin copy")
+		for _, call := range an.CallsTo(fn, "builtin append") {
+			a := call.Common().Args
+			if len(a) != 2 {
+				continue
+			}
+			head, ok1 := a[0].(*ssa.Slice)
+			tail, ok2 := a[1].(*ssa.Slice)
+			if !ok1 || !ok2 || head.High == nil || tail.Low == nil {
+				continue
+			}
+			if add, isAdd := tail.Low.(*ssa.BinOp); isAdd && add.Op == token.ADD && add.X == head.High {
+				if one, isC := an.ConstInt(add.Y); isC && one == 1 {
+					out = append(out, call)
+				}
+			}
+		}
+		return out
+	}
 	if fn := mustFunc(c, "R20.5", "pkg/trait/parentpb", "", "traitRemove"); fn != nil {
 		name := an.FuncName(fn)
 		n := 0
-		for _, call := range an.CallsTo(fn, "builtin copy") {
+		for _, call := range removalSites(fn) {
 			n++
 			eq, inRange := false, false
 			for _, e := range an.GuardingEdges(call) {
@@ -577,12 +656,15 @@ func r205and7(c *an.Ctx) {
 				if op, ok := lenCmp(e.If.Cond); ok && implies(e, op, token.NEQ) {
 					inRange = true
 				}
+				if isPresent, known := presentEdge(e); known && isPresent {
+					eq, inRange = true, true
+				}
 			}
 			c.Check(eq && inRange, "R20.5", name+"|an element is removed only when its name equals the trait to remove", call.Pos(), "",
 				"the element at the searched index is removed without comparing its Name with the trait to remove (or without the index < len test): removing an absent trait deletes the next greater trait instead, so the child's trait list is no longer the set difference")
 		}
 		if n == 0 {
-			c.Unk("R20.5", name+"|removal", fn.Pos(), "no copy(...) removal found")
+			c.Unk("R20.5", name+"|removal", fn.Pos(), "no removal of an element (copy(l[i:], l[i+1:]) or append(l[:i], l[i+1:]...)) found")
 		}
 		c.SawFunc(name)
 	}
@@ -605,6 +687,10 @@ func r205and7(c *an.Ctx) {
 					atEnd = true
 				}
 				if op, ok := nameCmp(e.If.Cond); ok && implies(e, op, token.NEQ) {
+					absent = true
+				}
+				// `found == false` where found is `index < len && list[index].Name == name`: at the end, or a different name
+				if isPresent, known := presentEdge(e); known && !isPresent {
 					absent = true
 				}
 			}
@@ -912,7 +998,27 @@ func r209(c *an.Ctx) {
 		c.SawFunc(an.FuncName(top))
 		// adjustTotal(val.X, cur.X, Direction == D): X and D correspond, and val/cur name the same total
 		n := 0
-		for _, fn := range an.WithClosures(top) {
+		// where the totals are adjusted: the function, its literals, the interceptor it installs (a literal, a plain
+		// function or a method value) and the helpers those delegate to
+		var scope []*ssa.Function
+		inScope := map[*ssa.Function]bool{}
+		add := func(f *ssa.Function) {
+			for _, g := range an.WithClosures(f) {
+				if !inScope[g] {
+					inScope[g] = true
+					scope = append(scope, g)
+				}
+			}
+		}
+		add(top)
+		for _, ic := range interceptorBodies(top, "InterceptBefore") {
+			add(ic.fn)
+			for _, h := range an.TransparentCalleesOf(ic.fn, 2) {
+				add(h)
+			}
+		}
+		adjusters := map[*ssa.Function]bool{}
+		for _, fn := range scope {
 			an.Instrs(fn, func(in ssa.Instruction) {
 				call, ok := in.(*ssa.Call)
 				if !ok || len(call.Call.Args) != 3 {
@@ -929,6 +1035,9 @@ func r209(c *an.Ctx) {
 					return
 				}
 				n++
+				if cal := call.Call.StaticCallee(); cal != nil {
+					adjusters[cal] = true
+				}
 				flag := call.Call.Args[2]
 				neg := false
 				for {
@@ -973,8 +1082,13 @@ func r209(c *an.Ctx) {
 			c.Unk(rule, an.FuncName(top)+"|totals", top.Pos(), fmt.Sprintf("%d adjustTotal calls found, 2 expected", n))
 		}
 		// adjustTotal increments exactly under inc
-		for _, fn := range an.WithClosures(top) {
-			if len(fn.Params) != 3 || fn.Parent() == nil {
+		var adj []*ssa.Function
+		for f := range adjusters {
+			adj = append(adj, f)
+		}
+		an.SortFuncs(adj)
+		for _, fn := range adj {
+			if len(fn.Params) != 3 || len(fn.Blocks) == 0 {
 				continue
 			}
 			if b, ok := fn.Params[2].Type().Underlying().(*types.Basic); !ok || b.Kind() != types.Bool {
@@ -1042,36 +1156,33 @@ func r209(c *an.Ctx) {
 	}
 	if fn := mustFunc(c, rule, "pkg/trait/meterpb", "Model", "RecordReading"); fn != nil {
 		c.SawFunc(an.FuncName(fn))
-		nows := clockNow(fn)
 		ok := false
-		for _, f := range an.WithClosures(fn) {
-			an.Instrs(f, func(in ssa.Instruction) {
-				if st, isSt := in.(*ssa.Store); isSt {
-					if base, _, fld, isF := an.FieldOf(st.Addr); isF && fld == "EndTime" && fromClock(st.Val, nows) {
-						for _, s := range an.Sources(base) {
-							if len(f.Params) == 2 && s == ssa.Value(f.Params[1]) {
-								ok = true
-							}
-						}
-					}
-				}
-			})
-		}
-		// ... on every path of the interceptor (a reading that repeats the previous usage still ends the period now)
-		for _, f := range an.WithClosures(fn) {
-			if f == fn || len(f.Params) != 2 {
-				continue
-			}
+		// the interceptor, however it is written: a literal, a named closure, a method value
+		for _, ic := range interceptorBodies(fn, "InterceptBefore") {
+			f, newP := ic.fn, ic.new
+			nows := clockNow(f)
 			stamps := func(x ssa.Instruction) bool {
 				st, isSt := x.(*ssa.Store)
 				if !isSt {
 					return false
 				}
-				_, _, fld, isF := an.FieldOf(st.Addr)
-				return isF && fld == "EndTime" && fromClock(st.Val, nows)
+				base, _, fld, isF := an.FieldOf(st.Addr)
+				if !isF || fld != "EndTime" || !fromClock(st.Val, nows) {
+					return false
+				}
+				for _, s := range an.Sources(base) {
+					if s == ssa.Value(newP) {
+						return true
+					}
+				}
+				return false
 			}
-			if t, _ := (an.PathQuery{Target: func(x ssa.Instruction) bool { _, isRet := x.(*ssa.Return); return isRet }, Avoid: stamps}).From(f, nil); t != nil {
-				ok = false
+			has := false
+			an.Instrs(f, func(in ssa.Instruction) { has = has || stamps(in) })
+			// ... on every path of the interceptor (a reading that repeats the previous usage still ends the period now)
+			t, _ := (an.PathQuery{Target: func(x ssa.Instruction) bool { _, isRet := x.(*ssa.Return); return isRet }, Avoid: stamps}).From(f, nil)
+			if has && t == nil {
+				ok = true
 			}
 		}
 		c.Check(ok, rule, an.FuncName(fn)+"|end_time of the new reading is the resource clock's now", fn.Pos(), "", "RecordReading does not stamp the new value's EndTime from the resource clock on every path of its interceptor (e.g. it keeps the old end time when the usage repeats): the end time stops tracking the last recording")
@@ -1247,10 +1358,19 @@ func r2011(c *an.Ctx) {
 				}
 				return false
 			}
-			// elements of a slice literal
-			elemsOf := func(v ssa.Value) []ssa.Value {
+			// elements of a slice: of a literal, or of what earlier appends put together
+			var elemsOf func(v ssa.Value, depth int) []ssa.Value
+			elemsOf = func(v ssa.Value, depth int) []ssa.Value {
 				var out []ssa.Value
+				if depth > 4 {
+					return out
+				}
 				for _, s := range an.SourcesOpaque(v) {
+					if ap, isCall := s.(*ssa.Call); isCall && an.CalleeName(ap) == "builtin append" && len(ap.Call.Args) == 2 && ap != call {
+						out = append(out, elemsOf(ap.Call.Args[0], depth+1)...)
+						out = append(out, elemsOf(ap.Call.Args[1], depth+1)...)
+						continue
+					}
 					sl, isSl := s.(*ssa.Slice)
 					if !isSl {
 						continue
@@ -1269,7 +1389,7 @@ func r2011(c *an.Ctx) {
 			switch {
 			case fromCaller(base):
 				// append(opts, own…): the model's options come last
-				for _, e := range elemsOf(added) {
+				for _, e := range elemsOf(added, 0) {
 					if isInterceptor(e) {
 						n++
 						c.SawFunc(an.FuncName(fn))
@@ -1278,7 +1398,7 @@ func r2011(c *an.Ctx) {
 					}
 				}
 			case fromCaller(added):
-				for _, e := range elemsOf(base) {
+				for _, e := range elemsOf(base, 0) {
 					if isInterceptor(e) {
 						n++
 						c.SawFunc(an.FuncName(fn))
@@ -1327,4 +1447,68 @@ func r201accumulate(c *an.Ctx) {
 				"an option writes entries into a map of modelArgs that may already hold entries from an earlier application (the package defaults are applied first): a model constructed with explicit configuration keeps the defaults' entries, e.g. preset names that were not configured are accepted and resolve to the wrong index")
 		})
 	}
+}
+
+type interceptorBody struct {
+	fn       *ssa.Function
+	old, new *ssa.Parameter
+	call     *ssa.Call // the resource.InterceptBefore/After call
+}
+
+// interceptorBodies: the bodies of the interceptors fn hands to resource.InterceptBefore / InterceptAfter (kind),
+// whether they are written as literals, named closures, plain functions or method values.
+func interceptorBodies(fn *ssa.Function, kind string) []interceptorBody {
+	var out []interceptorBody
+	for _, f := range an.WithClosures(fn) {
+		for _, cl := range an.CallsTo(f, an.ModulePath+"/pkg/resource."+kind) {
+			call := cl.(*ssa.Call)
+			for _, s := range an.SourcesOpaque(call.Call.Args[0]) {
+				if body, o, n := an.CallbackBody(s); body != nil && o != nil && n != nil && len(body.Blocks) > 0 {
+					out = append(out, interceptorBody{body, o, n, call})
+				}
+			}
+		}
+	}
+	return out
+}
+
+// conversionTarget: call converts a quantity with unitpb.Convert32 - directly, or through a helper the rules have not
+// seen that hands back Convert32's results unchanged. Returns the target unit as the caller wrote it (nil otherwise).
+func conversionTarget(call *ssa.Call) ssa.Value {
+	if strings.HasSuffix(an.CalleeName(call), "unitpb.Convert32") && len(call.Call.Args) == 3 {
+		return call.Call.Args[2]
+	}
+	h := an.TransparentCallee(call)
+	if h == nil || h.Signature.Results().Len() != 2 {
+		return nil
+	}
+	var inner *ssa.Call
+	for _, r := range an.Returns(h) {
+		var this *ssa.Call
+		for i, res := range r.Results {
+			ex, isEx := res.(*ssa.Extract)
+			if !isEx || ex.Index != i {
+				return nil
+			}
+			cl, isCall := ex.Tuple.(*ssa.Call)
+			if !isCall || !strings.HasSuffix(an.CalleeName(cl), "unitpb.Convert32") || (this != nil && this != cl) {
+				return nil
+			}
+			this = cl
+		}
+		if inner != nil && inner != this {
+			return nil
+		}
+		inner = this
+	}
+	if inner == nil || len(inner.Call.Args) != 3 {
+		return nil
+	}
+	unit := inner.Call.Args[2]
+	for i, p := range h.Params {
+		if unit == ssa.Value(p) && i < len(call.Call.Args) {
+			return call.Call.Args[i]
+		}
+	}
+	return nil
 }
